@@ -85,9 +85,11 @@ RaceExplained(pers, a, b) ==
   /\ Dev("D-C19-inmem-map-race") /\ pers = "mem"
   /\ a.pkg = "cache/persistor/inmemory" /\ b.pkg = "cache/persistor/inmemory"
   /\ (a.fn \in {"Store", "Remove"} \/ b.fn \in {"Store", "Remove"})      \* the calls made outside mu
-CrashExplained(pers, kind, site) ==
+\* site = innermost pithos frame of the crashing goroutine, frames = all its pithos frames ("pkg.fn")
+CrashExplained(pers, kind, site, frames) ==
   \/ /\ kind = "concurrent-map" /\ Dev("D-C19-inmem-map-race") /\ pers = "mem"
      /\ site.pkg = "cache/persistor/inmemory"
   \/ /\ kind = "panic" /\ Dev("D-C19-lfu-oversize-panic")
-     /\ site.pkg = "cache/evictionpolicy/lfu" /\ site.fn = "TrackSetAndReturnEvictedKeys"
+     /\ site.pkg = "cache/evictionpolicy/lfu"
+     /\ \E i \in 1..Len(frames) : frames[i] = "cache/evictionpolicy/lfu.TrackSetAndReturnEvictedKeys"
 =============================================================================
